@@ -3,11 +3,11 @@
 package term
 
 import (
+	"encoding/binary"
 	"fmt"
 	"math"
 	"math/bits"
 	"sort"
-	"strings"
 )
 
 type Kind uint8
@@ -120,19 +120,27 @@ var (
 
 func NumNodes() int { return nextID - 1 }
 
+var keyBuf []byte
+
 func mk(op Op, s Sort, a, b int, val uint64, name string, args ...*Term) *Term {
-	var sb strings.Builder
-	fmt.Fprintf(&sb, "%d|%d|%d|%d|%d|%d|%s", op, s.K, s.W, a, b, val, name)
+	kb := keyBuf[:0]
+	kb = append(kb, byte(op), byte(s.K))
+	kb = binary.AppendUvarint(kb, uint64(s.W))
+	kb = binary.AppendUvarint(kb, uint64(a))
+	kb = binary.AppendUvarint(kb, uint64(b))
+	kb = binary.AppendUvarint(kb, val)
+	kb = binary.AppendUvarint(kb, uint64(len(name)))
+	kb = append(kb, name...)
 	for _, x := range args {
-		fmt.Fprintf(&sb, "|%d", x.ID)
+		kb = binary.AppendUvarint(kb, uint64(x.ID))
 	}
-	k := sb.String()
-	if t, ok := table[k]; ok {
+	keyBuf = kb
+	if t, ok := table[string(kb)]; ok {
 		return t
 	}
 	t := &Term{ID: nextID, Op: op, Sort: s, Args: args, A: a, B: b, Val: val, Name: name}
 	nextID++
-	table[k] = t
+	table[string(kb)] = t
 	return t
 }
 
@@ -216,6 +224,34 @@ func flatten(op Op, in []*Term, out []*Term) []*Term {
 }
 
 func And(xs ...*Term) *Term {
+	if len(xs) == 2 {
+		a, b := xs[0], xs[1]
+		if b.Op == OAnd && a.Op != OAnd {
+			a, b = b, a
+		}
+		if a.Op == OAnd && b.Op != OAnd && !b.IsConst() {
+			// insert b into the sorted, duplicate-free argument list of a
+			args := a.Args
+			i := sort.Search(len(args), func(i int) bool { return args[i].ID >= b.ID })
+			if i < len(args) && args[i] == b {
+				return a
+			}
+			var neg *Term
+			if b.Op == ONot {
+				neg = b.Args[0]
+			}
+			for _, x := range args {
+				if x == neg || (x.Op == ONot && x.Args[0] == b) {
+					return False()
+				}
+			}
+			out := make([]*Term, 0, len(args)+1)
+			out = append(out, args[:i]...)
+			out = append(out, b)
+			out = append(out, args[i:]...)
+			return mk(OAnd, BoolSort, 0, 0, 0, "", out...)
+		}
+	}
 	fl := flatten(OAnd, xs, nil)
 	seen := map[int]bool{}
 	var out []*Term
